@@ -650,6 +650,28 @@ def weave(repo: Repo, chk: Check) -> None:
     if not fallback:
         chk.bad("C07.weave-kill", f"{f.key}:branch has_accfg_effects", f.where, "no fallback branch clearing the state for ops with accfg effects")
 
+    # ---- straight-line knowledge only: nothing flows into a sibling region or another block
+    chk.rule(
+        "C07.weave-regions",
+        "the state dictionary is cleared when the walk moves on to a further block (of the same region or of a sibling region): such a block can be "
+        "entered without the code woven before it having run (alternative regions of an unknown op, unstructured control flow)",
+        floor=1,
+    )
+    blk_loops = [n for n in ast.walk(f.node) if isinstance(n, ast.For) and norm.any_match(["$r.blocks"], n.iter) is not None]
+    if not blk_loops:
+        raise AnalysisError(f"{f.where}: loop over the blocks of a region not found")
+    for bl in blk_loops:
+        pre = []
+        for st in bl.body:
+            if isinstance(st, ast.For) and norm.any_match(["$b.ops"], st.iter) is not None:
+                break
+            pre.append(st)
+        resets = any(clears([st]) or (isinstance(st, ast.If) and clears(st.body)) for st in pre)
+        chk.result(resets, "C07.weave-regions", f"{f.key}:block-entry", f"{f.module.relpath}:{bl.lineno}",
+                   "the state is cleared on entry to every block but the first",
+                   "one state dictionary is carried through all blocks and sibling regions: a setup in the second region of an op (or in another CFG block) is "
+                   "threaded from the setup in the first one, and dedup drops fields that are only set on the other path")
+
     # ---- regions woven on their own: what is configured inside is unknown outside
     chk.rule(
         "C07.weave-nested",
